@@ -273,8 +273,13 @@ def handle (inp out : Sexp) : CaseResult :=
       | none => { agree := false, specOk := false, nontrivial := false, tags := ["call", "call-unmodelled-outcome"],
                   detail := s!"model={repr m} impl={out}" }
       | some o =>
-        -- the specification is functional (`C31_call_iff`): an outcome satisfies it iff it is the model's
-        let agree := decide (o = m)
+        -- successes, count errors and missing externs must be the model's exactly (`C31_call_iff`); for argument
+        -- errors the slots and their order must be the model's and each reported error must be one that APPLIES at
+        -- its slot (`outcomeAccepts`, `outcomeAccepts_model`): which of two applicable complaints is raised is not
+        -- part of the property
+        let agree := match externs.find? (fun e => e.1 = name) with
+          | some (_, sg) => outcomeAccepts rs sg args m o
+          | none => decide (o = m)
         let target := (externs.find? (fun e => e.1 = name)).map (·.2)
         let slotTags := match target with
           | some s => (s.params.map (fun p => "slot-" ++ ptypeTag p.ty ++ (if p.mutable then "-mut" else ""))).eraseDups ++
@@ -328,7 +333,14 @@ def handle (inp out : Sexp) : CaseResult :=
              names.length == es.length && names.eraseDups.length == names.length && names.all isUser &&
              es.all (fun | .list [.atom "e", _, sS] => (match decSig sS with | some sg => validSigB isUser sg | none => false) | _ => false)
            | _ => true)
-        { agree := api == mRes && each == mEach, specOk := specOk,
+        -- a failing entry must be the model's (same key); its error any of those applicable to that entry
+        let apiOk : Bool := match externMap isUser ps, api with
+          | .error (some n, _), .list [.atom "err", .list [.atom "some", .str n'], .atom c] =>
+            n == n' && (match (pragmaMap ps).find? (fun e => e.1 == some n) with
+              | some (_, p) => ((entryErrs isUser n p).map mapErrAtom).contains c
+              | none => false)
+          | _, _ => api == mRes
+        { agree := apiOk && each == mEach, specOk := specOk,
           nontrivial := ps.length ≥ 2 || ps.any (fun p => p.args.length ≠ 1),
           tags := ["externmap", s!"pragmas{min ps.length 5}",
             (match api with | .list (.atom "ok" :: _) => "map-ok" | .list [.atom "err", _, .atom c] => "map-err-" ++ c | _ => "map-odd"),
